@@ -94,7 +94,7 @@ CHECKS = {
     "C08": dict(
         level="model_checking",
         clauses=SUBQ | {"rows", "order", "names", "export-error", "accept", "flat-correct"}, backends={"sqlite"},
-        phases=dict(quick=[dict(kind="flat", depth=5), dict(kind="flat", depth=3, paths=True), dict(kind="flatjoin", pre=2), dict(profile="gsub4"), dict(profile="subq4"), dict(profile="wins3"), dict(profile="agg3"), dict(profile="joins3"), dict(profile="union2")],
+        phases=dict(quick=[dict(kind="flat", depth=5), dict(kind="flat", depth=3, paths=True), dict(kind="flat", depth=4, alias=True), dict(kind="flat", depth=4, paths=True, alias=True, srcs=[1]), dict(kind="flatjoin", pre=2), dict(profile="gsub4"), dict(profile="subq4"), dict(profile="wins3"), dict(profile="agg3"), dict(profile="joins3"), dict(profile="union2")],
                     thorough=[dict(kind="flat", depth=6, srcs=[1, 6, 7], timeout=1800), dict(kind="flat", depth=4, paths=True), dict(kind="flatjoin", pre=3), dict(profile="wins4"), dict(profile="agg3"), dict(profile="win3"),
                               dict(profile="joins4"), dict(profile="union3")]),
     ),
